@@ -299,10 +299,6 @@ with build_branch (e : expr) (bb t f : nat) {struct e} : M unit :=
   | EConst (CBool b) =>
       DO link bb (if b then t else f) THEN dummy_link bb (if b then f else t)
   | EUnary UNot a => build_branch a bb f t
-  | ECmp l (CMore op m rest') =>
-      LET extra <- new_bb IN
-      LET r <- build_expr l bb IN
-      build_ctail (fst r) (CMore op m rest') (snd r) (Some extra) t f
   | EBool op a b => br_bool op (build_branch a) (build_branch b) bb t f
   | EIf c a b =>
       LET tb <- new_bb IN LET eb <- new_bb IN
@@ -313,8 +309,15 @@ with build_branch (e : expr) (bb t f : nat) {struct e} : M unit :=
   | EConst _ | EName _ => gen_branch (fun bb => ret (e, bb)) bb t f
   | EUnary op a => gen_branch (bx_unary op a (build_expr a)) bb t f
   | EBin op a b => gen_branch (bx_2 (EBin op) (build_expr a) (build_expr b)) bb t f
-  | ECmp l (CLast op r) =>
-      gen_branch (bx_2 (fun x y => ECmp x (CLast op y)) (build_expr l) (build_expr r)) bb t f
+  | ECmp l rest =>
+      match rest with
+      | CLast op r =>
+          gen_branch (bx_2 (fun x y => ECmp x (CLast op y)) (build_expr l) (build_expr r)) bb t f
+      | CMore _ _ _ =>
+          LET extra <- new_bb IN
+          LET r <- build_expr l bb IN
+          build_ctail (fst r) rest (snd r) (Some extra) t f
+      end
   | EWalrus x a => gen_branch (bx_walrus x (build_expr a)) bb t f
   | ECall fn args => gen_branch (bx_call (build_expr fn) (build_exprs args)) bb t f
   | ETuple es => gen_branch (bx_list ETuple (build_exprs es)) bb t f
@@ -402,34 +405,24 @@ Definition attr_unwrap : nat := 902.
 Definition mcall (x : nat) (a : nat) : expr := ECall (EAttr (EName (VT x)) a) ENil.
 Definition one (e : expr) : exprs := ECons e ENil.
 
-(* _build_node_value: value first, then the targets (fix-2) *)
-Definition build_value_targets (v : option expr) (ts : exprs) (bb : nat) : M (option expr * exprs * nat) :=
-  LET rv <- match v with
-            | Some e => LET r <- build_expr e bb IN ret (Some (fst r), snd r)
-            | None => ret (None, bb)
-            end IN
-  LET rt <- build_exprs ts (snd rv) IN
-  ret (fst rv, fst rt, snd rt).
-
-Definition first_expr (es : exprs) (d : expr) : expr :=
-  match es with ECons e _ => e | ENil => d end.
-Definition opt_get (o : option expr) (d : expr) : expr :=
-  match o with Some e => e | None => d end.
-
+(* _build_node_value: the value first, then the targets (fix-2) *)
 Fixpoint visit_stmt (s : stmt) (bb : nat) (j : jumps) {struct s} : M (option nat) :=
   match s with
   | SAssign ts e =>
-      LET r <- build_value_targets (Some e) ts bb IN
-      let '(v, ts', b) := r in
-      DO add_stmt b (BAssign ts' (opt_get v e)) THEN ret (Some b)
+      LET r <- build_expr e bb IN
+      LET rt <- build_exprs ts (snd r) IN
+      DO add_stmt (snd rt) (BAssign (fst rt) (fst r)) THEN ret (Some (snd rt))
   | SAug t op e =>
-      LET r <- build_value_targets (Some e) (one t) bb IN
-      let '(v, ts', b) := r in
-      DO add_stmt b (BAug (first_expr ts' t) op (opt_get v e)) THEN ret (Some b)
-  | SAnn t e =>
-      LET r <- build_value_targets e (one t) bb IN
-      let '(v, ts', b) := r in
-      DO add_stmt b (BAnn (first_expr ts' t) v) THEN ret (Some b)
+      LET r <- build_expr e bb IN
+      LET rt <- build_expr t (snd r) IN
+      DO add_stmt (snd rt) (BAug (fst rt) op (fst r)) THEN ret (Some (snd rt))
+  | SAnn t (Some e) =>
+      LET r <- build_expr e bb IN
+      LET rt <- build_expr t (snd r) IN
+      DO add_stmt (snd rt) (BAnn (fst rt) (Some (fst r))) THEN ret (Some (snd rt))
+  | SAnn t None =>
+      LET rt <- build_expr t bb IN
+      DO add_stmt (snd rt) (BAnn (fst rt) None) THEN ret (Some (snd rt))
   | SExpr e =>
       LET r <- build_expr e bb IN
       DO (if is_tmp_name (fst r) then ret tt else add_stmt (snd r) (BExpr (fst r))) THEN
@@ -461,8 +454,8 @@ Fixpoint visit_stmt (s : stmt) (bb : nat) (j : jumps) {struct s} : M (option nat
       | SNil =>
         LET itv <- fresh_tmp IN LET resv <- fresh_tmp IN
         (* it = make_iter *)
-        LET r <- build_expr (EMakeIter it) bb IN
-        DO add_stmt (snd r) (BAssign (one (EName (VT itv))) (fst r)) THEN
+        LET r <- build_expr it bb IN
+        DO add_stmt (snd r) (BAssign (one (EName (VT itv))) (EMakeIter (fst r))) THEN
         (* while True: *)
         LET head <- new_bb IN DO link (snd r) head THEN
         LET body_bb <- new_bb IN LET tail <- new_bb IN
@@ -475,8 +468,8 @@ Fixpoint visit_stmt (s : stmt) (bb : nat) (j : jumps) {struct s} : M (option nat
         DO add_stmt then_bb (BExpr (mcall resv attr_unwrap_nothing)) THEN
         DO link then_bb tail THEN
         (*   x, it = res.unwrap() *)
-        LET rt <- build_expr (ETuple (ECons t (one (EName (VT itv))))) else_bb IN
-        DO add_stmt (snd rt) (BAssign (one (fst rt)) (mcall resv attr_unwrap)) THEN
+        LET rt <- build_expr t else_bb IN
+        DO add_stmt (snd rt) (BAssign (one (ETuple (ECons (fst rt) (one (EName (VT itv)))))) (mcall resv attr_unwrap)) THEN
         (*   body *)
         LET r2 <- visit_stmts body (snd rt) (Some (snd rt)) (mkJ (j_ret j) (Some head) (Some tail)) IN
         DO match r2 with Some e => link e head | None => ret tt end THEN
@@ -485,10 +478,10 @@ Fixpoint visit_stmt (s : stmt) (bb : nat) (j : jumps) {struct s} : M (option nat
   | SBreak => match j_brk j with Some b => DO link bb b THEN ret None | None => fail ErrNoLoop end
   | SContinue => match j_cont j with Some b => DO link bb b THEN ret None | None => fail ErrNoLoop end
   | SPass => ret (Some bb)
-  | SReturn e =>
-      LET r <- build_value_targets e ENil bb IN
-      let '(v, _, b) := r in
-      DO add_stmt b (BReturn v) THEN DO link b (j_ret j) THEN ret None
+  | SReturn None => DO add_stmt bb (BReturn None) THEN DO link bb (j_ret j) THEN ret None
+  | SReturn (Some e) =>
+      LET r <- build_expr e bb IN
+      DO add_stmt (snd r) (BReturn (Some (fst r))) THEN DO link (snd r) (j_ret j) THEN ret None
   | SDef body rn =>
       fun s =>
         match visit_stmts body entry_idx (Some entry_idx) (mkJ exit_idx None None)
